@@ -1,3 +1,43 @@
-(* Engine entry points for C05: run_c05 sub-op case.  (stub until the property's model exists) *)
-From Pan Require Import Base.Common Base.Sx.
-Definition run_c05 (sub : Z) (x : sx) : sx := SL [SZ (-1)].
+(* Engine entry points for C05: decode an S-expression case, run the model / the checker, encode.
+   sub-op 1: (b m)          -> (lab n)                 the model's labelling      (b: 0 cc3d, 1 scipy)
+   sub-op 2: (b m lab n)    -> (holds (wf coords count range used partition))   holds_C05 + diagnosis bits
+   sub-op 3: (ndim v)       -> (backend width)         default_backend, smallest_fitting_uint
+   sub-op 4: (bk ndim p r)  -> (0 (lp np) (lr nr) width) | (1 code)   approximate_instances; bk = () | (b)
+   a sparse map is ((coords label) ...), coords = (z y x) *)
+From Pan Require Import Base.Common Base.Sx Model.CCA.
+
+Definition dec_backend (s : sx) : backend := if sZ s =? 0 then Cc3d else Scipy.
+Definition enc_backend (b : backend) : sx := SZ (match b with Cc3d => 0 | Scipy => 1 end).
+Definition dec_smap (s : sx) : smap := map (fun e => (sZs (sNth 0 e), sZ (sNth 1 e))) (sL s).
+Definition enc_smap (m : smap) : sx := SL (map (fun p => SL [ofZs (fst p); SZ (snd p)]) m).
+
+Definition run_cca (s : sx) : sx :=
+  let (lab, n) := cca (dec_backend (sNth 0 s)) (dec_smap (sNth 1 s)) in SL [enc_smap lab; SZ n].
+
+Definition run_holds (s : sx) : sx :=
+  let b := dec_backend (sNth 0 s) in
+  let m := dec_smap (sNth 1 s) in
+  let lab := dec_smap (sNth 2 s) in
+  let n := sZ (sNth 3 s) in
+  let (lab0, n0) := cca b m in
+  SL [ofB (holds_C05 b m lab n);
+      SL [ofB (wf_b m); ofB (same_coords m lab); ofB (n =? n0); ofB (labels_in_range lab n);
+          ofB (if n =? n0 then labels_all_used lab n else false);
+          ofB (same_partition (map snd lab0) (map snd lab))]].
+
+Definition run_rules (s : sx) : sx :=
+  SL [enc_backend (default_backend (sZ (sNth 0 s))); SZ (smallest_fitting_uint (sZ (sNth 1 s)))].
+
+Definition run_approx (s : sx) : sx :=
+  let bk := match sNth 0 s with SL [b] => Some (dec_backend b) | _ => None end in
+  match approx_instances bk (sZ (sNth 1 s)) (dec_smap (sNth 2 s)) (dec_smap (sNth 3 s)) with
+  | Ok (p, r, w) => SL [SZ 0; SL [enc_smap (fst p); SZ (snd p)]; SL [enc_smap (fst r); SZ (snd r)]; SZ w]
+  | Err c => SL [SZ 1; SZ c]
+  end.
+
+Definition run_c05 (sub : Z) (x : sx) : sx :=
+  if sub =? 1 then run_cca x
+  else if sub =? 2 then run_holds x
+  else if sub =? 3 then run_rules x
+  else if sub =? 4 then run_approx x
+  else SL [SZ (-1)].
